@@ -50,6 +50,7 @@ class Gen:
             empty_list=0.0,
             array_params=0.0,
             strs=True,
+            big=False,         # occasionally exceed the usual sizes: long names/strings/lists/arrays/scripts, large numbers, many modes
         )
         self.o.update(opts)
         self.used = set()
@@ -80,7 +81,7 @@ class Gen:
             elif self.coin(self.o["hostile_names"]):
                 s = r.choice(NEAR_MISS_NAMES)
             else:
-                n = r.choice([1, 1, 2, 3, 4, 6, 9, 12])
+                n = r.choice([1, 1, 2, 3, 4, 6, 9, 12] + ([20, 33, 64] if self.o["big"] else []))
                 s = r.choice("abcdefghijklmnopqrstuvwxyzABCDEFGHIJKLMNOPQRSTUVWXYZ")
                 s += "".join(r.choice("abcdefghijklmnopqrstuvwxyzABCDEFGHIJKLMNOPQRSTUVWXYZ0123456789_") for _ in range(n - 1))
             if not self.is_name(s):
@@ -112,14 +113,17 @@ class Gen:
         r = self.r
         if not self.o["strs"]:
             return '"s"'
+        if self.coin(0.12):
+            # contents that look like other tokens or like format directives
+            return '"%s"' % r.choice(["True", "False", "pi", "q0", "name", "version", "for", "1", "1.5", "1+2j", "p0", "sin", "{x}", "%s", "50%", "%d items", "{0}", "\\n", "#c", "a,b", " "])
         alphabet = "abcXYZ019 _-+*/=.,:;()[]<>!?#$%&@^~|'\\`"
-        n = r.choice([0, 1, 1, 3, 5, 9])
+        n = r.choice([0, 1, 1, 3, 5, 9] + ([40, 120, 300] if self.o["big"] else []))
         s = "".join(r.choice(alphabet) for _ in range(n))
         return '"%s"' % s
 
     def int_lit(self, lo=0, hi=12):
         r = self.r
-        v = r.randint(lo, hi) if self.coin(0.85) else r.choice([0, 1, 2, 17, 100, 255, 1000, 65536, 123456789])
+        v = r.randint(lo, hi) if self.coin(0.6 if self.o["big"] else 0.85) else r.choice([0, 1, 2, 17, 100, 255, 1000, 65536, 123456789] + ([2 ** 31, 2 ** 31 - 1, 2 ** 32 + 1, 10 ** 12, 2 ** 53 + 1, 2 ** 62, 999999999999999999] if self.o["big"] else []))
         s = str(v)
         if self.coin(0.08):
             s = "0" * r.randint(1, 2) + s
@@ -349,8 +353,8 @@ class Gen:
         r = self.r
         vt = vartype or r.choice(["int", "float", "complex"] if self.o["complex"] else ["int", "float"])
         kinds = {"int": "i", "float": "if", "complex": "ifc"}[vt]
-        rows = rows or r.choice([1, 1, 2, 2, 3, 4, 5])
-        cols = cols or r.choice([1, 2, 2, 3, 3, 4, 6])
+        rows = rows or r.choice([1, 1, 2, 2, 3, 4, 5] + ([8, 12, 1] if self.o["big"] else []))
+        cols = cols or r.choice([1, 2, 2, 3, 3, 4, 6] + ([9, 16, 40] if self.o["big"] else []))
         pp = self.o["array_params"] if param_p is None else param_p
         for _ in range(30):
             nm = name or self.ident()
@@ -424,7 +428,10 @@ class Gen:
     def reg_expr(self, depth=2):
         """Polynomial/rational expression over measured registers."""
         r = self.r
-        regs = ["q%d" % r.choice([0, 1, 2, 3, 5, 7, 10, 12, 31, 64, 120]) for _ in range(r.choice([1, 1, 2, 2, 3, 4, 5]))]
+        regnums = [0, 1, 2, 3, 5, 7, 10, 12, 31, 64, 120]
+        if self.coin(0.15):
+            regnums = regnums + [99, 100, 200, 999, 1000, 1001, 1234, 9999, 10000, 65535, 100000]
+        regs = ["q%d" % r.choice(regnums) for _ in range(r.choice([1, 1, 2, 2, 3, 4, 5]))]
 
         def term(d):
             c = r.random()
@@ -460,17 +467,17 @@ class Gen:
     def arguments(self, nmax=3, depth=2, allow_str=True, allow_sym=True, force=False):
         """Text of an argument list including the brackets."""
         r = self.r
-        npos = r.choice([0, 1, 1, 2, 2, 3][: nmax + 3]) if nmax else 0
+        npos = r.choice([0, 1, 1, 2, 2, 3][: nmax + 3] + ([6, 9] if self.o["big"] else [])) if nmax else 0
         pos = [self.value_text(depth, allow_str, allow_sym) for _ in range(npos)]
         kws = []
         used = set()
-        for _ in range(r.choice([0, 0, 1, 1, 2, 3])):
+        for _ in range(r.choice([0, 0, 1, 1, 2, 3] + ([7, 10] if self.o["big"] else []))):
             k = self.ident(fresh=False)
             if k in used:
                 continue
             used.add(k)
             if self.coin(self.o["kwlists"]):
-                n = r.choice([1, 1, 2, 3, 4])
+                n = r.choice([1, 1, 2, 3, 4] + ([12, 30] if self.o["big"] else []))
                 if self.coin(self.o["empty_list"]):
                     n = 0
                     self.tags.add("empty-list-kwarg")
@@ -532,8 +539,8 @@ class Gen:
 
     def pick_modes(self, nmax=4, pool=None):
         r = self.r
-        n = r.choice([1, 1, 1, 2, 2, 3, 4][: nmax + 3])
-        pool = pool or list(range(0, 8)) + [r.randint(0, self.o["max_mode"])]
+        n = r.choice([1, 1, 1, 2, 2, 3, 4][: nmax + 3] + ([7, 12] if self.o["big"] and nmax >= 4 else []))
+        pool = pool or list(range(0, 8)) + [r.randint(0, self.o["max_mode"])] + ([r.choice([121, 255, 256, 1000, 4096, 65535, 10 ** 6])] + list(range(8, 20)) if self.o["big"] else [])
         ms = []
         for _ in range(n):
             m = r.choice(pool)
@@ -630,8 +637,16 @@ def render(lines, rng, layout=0.0, final_newline=True):
 def script(rng, grammar, n_stmts=(3, 12), **opts):
     """A random valid-ish script exercising the whole language.
     Returns (text, info) with info = {'tags': set, 'params': [...]}."""
+    opts = dict(opts)
+    if "big" not in opts:
+        opts["big"] = rng.random() < opts.pop("big_p", 0.06)
+    else:
+        opts.pop("big_p", None)
     g = Gen(rng, grammar, **opts)
     r = rng
+    if g.o["big"]:
+        g.tags.add("big")
+        n_stmts = (n_stmts[0], n_stmts[1] * r.choice([1, 3, 8]))
     lines, name = g.metadata()
     lines.append("")
     body = []
@@ -685,7 +700,7 @@ def loop(g, body_n=None, var=None):
     c = r.random()
     if vt in ("int", "float") and c < 0.5:
         a = r.randint(0, 5)
-        b = a + r.choice([0, 1, 2, 3, 4, 6])
+        b = a + r.choice([0, 1, 2, 3, 4, 6] + ([17, 40] if g.o["big"] else []))
         if g.coin(0.1):
             b = r.randint(0, a)
         hdr = "%d:%d" % (a, b)
